@@ -270,10 +270,13 @@ LOGS_COVERS = ["log_S.step", "log_S.after"]
 
 
 def h_map_ccfs(I, fi):
-    """get_map_ccfs on a one-node graph: value = max_idx / (G - 1) per sample"""
+    """get_map_ccfs at one node with any number of children: value = max_idx / (G - 1) per sample, and every child is visited once with the same graph and
+    result dictionary (so every clone of the tree gets its value)"""
     P = I.P
     G = alg.sym("G", "Int")
-    P.assume(P.z(G) >= 2)
+    n = alg.sym("n_children", "Int")
+    P.assume(z3.And(P.z(G) >= 2, P.z(n) >= 0))
+    rec = []
     m0, m1 = alg.sym("idx0", "Int"), alg.sym("idx1", "Int")
     P.assume(z3.And(P.z(m0) >= 0, P.z(m0) < P.z(G), P.z(m1) >= 0, P.z(m1) < P.z(G)))
 
@@ -289,12 +292,23 @@ def h_map_ccfs(I, fi):
         def a_nodes(self, I_):
             return Nodes()
 
-        def m_successors(self, I_, n):
-            return []
+        def m_successors(self, I_, nd):
+            return SymSeq("children", n, lambda i: ("child", I_.to_num(i).key()))
 
     res = {}
+    g = Graph()
     I.registry.globals_override["np"] = NpArrayStub()
-    I.call_function(fi, [Graph(), "root", res], {}, force_inline=True)
+    I.registry.call_contracts[fi.qualname] = lambda I_, a, k, nd: rec.append(list(a))
+    I.registry.generic_loops.add(fi.qualname)
+    I.call_function(fi, [g, "root", res], {}, force_inline=True)
+    gens = P.ghost.get("generic_indices", [])
+    if gens:
+        dsl.cover(I, "ccfs.children")
+        P.check("map-ccfs.every-child-visited", len(gens) == 1 and len(rec) == 1 and rec[0][0] is g and rec[0][1] == ("child", gens[0].key()) and rec[0][2] is res,
+                "the recursion visits every child once, with the same graph and the same result dictionary", kind="post")
+    else:
+        dsl.cover(I, "ccfs.leaf")
+        P.check("map-ccfs.leaf-stops", not rec and not P.feasible(P.z(n) != 0), "a clone without children ends the recursion", kind="post")
     v = res["root"]
     vals = v.data if hasattr(v, "data") else list(v)
     P.check("map-ccfs.on-grid", len(vals) == 2 and all(P.z(I.to_num(x) * (G - 1)) is not None for x in vals) and
@@ -313,7 +327,7 @@ class NpArrayStub(Model):
 def verify_all(ctx, repo, prop):
     dsl.verify(ctx, repo, dsl.Registry(), prop, MAP + "._compute_log_D_n", h_log_D_n, expect_covers=LOGDN_COVERS)
     dsl.verify(ctx, repo, dsl.Registry(), prop, MAP + ".compute_log_S", h_log_S, expect_covers=LOGS_COVERS)
-    dsl.verify(ctx, repo, dsl.Registry(), prop, MAP + ".get_map_ccfs", h_map_ccfs, expect_covers=["ccfs"])
+    dsl.verify(ctx, repo, dsl.Registry(), prop, MAP + ".get_map_ccfs", h_map_ccfs, expect_covers=["ccfs", "ccfs.children", "ccfs.leaf"])
     dsl.verify(ctx, repo, dsl.Registry(), prop, MAP + "._set_max_assignment", h_traceback, expect_covers=TRACE_COVERS)
     dsl.verify(ctx, repo, dsl.Registry(), prop, MAP + ".get_map_clonal_prev", h_clonal_prev, expect_covers=["prev.leaf", "prev.inner"])
     dsl.verify(ctx, repo, dsl.Registry(), prop, MAP + ".compute_log_D", h_compute_log_D_fold, expect_covers=["fold.step", "fold.after"])
